@@ -441,6 +441,62 @@ def parse_simple_validator(fn, op):
         info["bounds"].append([mm.group(3), mm.group(2)])
     return info
 
+EXPORT_TEMPLATE = """def export(self, outfile, level, namespaceprefix_='', namespacedef_=%(nsdef)s, name_='%(cls)s', pretty_print=True):
+    imported_ns_def_ = GenerateDSNamespaceDefs_.get('%(cls)s')
+    if imported_ns_def_ is not None:
+        namespacedef_ = imported_ns_def_
+    if pretty_print:
+        eol_ = '\\n'
+    else:
+        eol_ = ''
+    if self.original_tagname_ is not None and name_ == '%(cls)s':
+        name_ = self.original_tagname_
+    if UseCapturedNS_ and self.ns_prefix_:
+        namespaceprefix_ = self.ns_prefix_ + ':'
+    showIndent(outfile, level, pretty_print)
+    outfile.write('<%%s%%s%%s' %% (namespaceprefix_, name_, namespacedef_ and ' ' + namespacedef_ or ''))
+    already_processed = set()
+    self._exportAttributes(outfile, level, already_processed, namespaceprefix_, name_='%(cls)s')
+    if self.has__content():
+        outfile.write('>%%s' %% (eol_,))
+        self._exportChildren(outfile, level + 1, namespaceprefix_, namespacedef_, name_='%(cls)s', pretty_print=pretty_print)
+%(indent)s        outfile.write('</%%s%%s>%%s' %% (namespaceprefix_, name_, eol_))
+    else:
+        outfile.write('/>%%s' %% (eol_,))"""
+NSDEFS = ["''", "' xmlns:None=\"http://www.neuroml.org/schema/neuroml2\" '"]
+BUILD_TEMPLATE = """def build(self, node, gds_collector_=None):
+    self.gds_collector_ = gds_collector_
+    if SaveElementTreeNode:
+        self.gds_elementtree_node_ = node
+    already_processed = set()
+    self.ns_prefix_ = node.prefix
+    self._buildAttributes(node, node.attrib, already_processed)
+    for child in node:
+        nodeName_ = Tag_pattern_.match(child.tag).groups()[-1]
+        self._buildChildren(child, node, nodeName_, gds_collector_=gds_collector_)
+    return self"""
+
+
+def parse_export_build(fns, cname, has_children, op):
+    """`export` and `build` themselves: compared as a whole against the one shape generateDS emits (the element name is
+    the one the caller passes unless it is the class's own default; attributes, then `>` children end tag or `/>`;
+    `build` reads attributes, then dispatches every child node in document order).  -> closing tag indented?"""
+    got = _src(fns["export"])
+    indented = None
+    for ind in (True, False):
+        for nsdef in NSDEFS:
+            exp = EXPORT_TEMPLATE % {"cls": cname, "nsdef": nsdef,
+                                     "indent": "        showIndent(outfile, level, pretty_print)\n" if ind else ""}
+            if got == exp:
+                indented = ind
+    if indented is None:
+        op.append(["export", fns["export"].lineno, "export() is not of the generated shape"])
+    elif has_children and not indented:
+        op.append(["export", fns["export"].lineno, "end tag of an element with children is not indented"])
+    if _src(fns["build"]) != BUILD_TEMPLATE:
+        op.append(["build", fns["build"].lineno, "build() is not of the generated shape"])
+    return indented
+
 
 STD = {"__init__", "factory", "has__content", "export", "_exportAttributes", "_exportChildren", "validate_", "build",
        "_buildAttributes", "_buildChildren"}
@@ -487,6 +543,7 @@ def extract(repo):
         ir["bldChildren"], ir["bldChildrenSuper"] = parse_build_children(fns["_buildChildren"], c.name, op)
         ir["hasContent"], ir["hasContentSuper"] = parse_has_content(fns["has__content"], c.name, op)
         ir["validate"], ir["recurse"] = parse_validate(fns["validate_"], c.name, op)
+        ir["closeIndented"] = parse_export_build(fns, c.name, bool(ir["expChildren"]), op)
         for k, f in fns.items():
             if k.startswith("validate_") and k != "validate_":
                 ir["stypes"].append(parse_simple_validator(f, op))
